@@ -44,7 +44,7 @@ def negate_some(rng, t, p=0.4):
     return {"k": "F", "e": [[c, negate_some(rng, q, p)] for c, q in t["e"]]}
 
 
-def kernel_cases(rng, n_ops, quick, shapes=None, metrics=False, pz=0.1, neg=False):
+def kernel_cases(rng, n_ops, quick, shapes=None, metrics=False, pz=0.1, neg=False, revisit=False):
     cases = []
     for name, expr in SHAPES.items():
         if shapes and name not in shapes:
@@ -130,6 +130,22 @@ def kernel_cases(rng, n_ops, quick, shapes=None, metrics=False, pz=0.1, neg=Fals
                 for order in itertools.permutations(vs):
                     for style in ("tf", "lf"):
                         cases.append({"shape": name, "expr": expr, "ops": ops, "order": list(order), "style": style, "extents": ext, "zshape": 1})
+        # revisited two-rank outputs: matmul with the reduction rank tiled and its tile loop outermost; in the later passes some rows of A that are not yet in the
+        # output meet nothing in B (they are offered, yield no product and leave nothing behind) and sort before a row the first pass already wrote
+        if revisit:
+            expr = SHAPES["matmul"]
+            for _ in range(max(8, n_ops // 3)):
+                ext = {"m": rng.randint(4, 5), "n": 2, "k": 4}
+                last = ext["m"] - 1
+                a_rows = {last: {0: rng.randint(1, 2), 3: rng.randint(1, 2)}}
+                for m in rng.sample(range(last), rng.randint(2, last)):
+                    a_rows[m] = {2: rng.randint(1, 2)}                        # meets no row of B
+                if rng.random() < 0.5:
+                    a_rows.setdefault(rng.randint(0, last - 1), {})[1] = 1      # sometimes an early row is written by the first pass too
+                ops = {"A": {"k": "F", "e": [[m, {"k": "F", "e": [[k, {"k": "L", "v": v}] for k, v in sorted(r.items())]}] for m, r in sorted(a_rows.items())]},
+                       "B": {"k": "F", "e": [[k, {"k": "F", "e": [[n, {"k": "L", "v": rng.randint(1, 2)}] for n in range(2) if n == k % 2 or rng.random() < 0.5]}] for k in (0, 1, 3)]}}
+                for o in (["k1", "m", "n", "k0"], ["k1", "m", "k0", "n"], ["k1", "n", "m", "k0"]):
+                    cases.append({"shape": "matmul", "expr": expr, "ops": ops, "order": o, "style": "tf", "extents": ext, "zshape": 1, "tile": {"v": "k", "s": 2}})
         # wide two-variable kernels: an output fiber of 10-16 coordinates populated pass by pass (a reduction rank looped above the output rank)
         for name in ("matvec", "reduce", "elem", "copy"):
             expr = SHAPES[name]
@@ -189,7 +205,7 @@ def design(ctx):
 
 def run(ctx):
     dsg, states = design(ctx)
-    cases = kernel_cases(ctx.rng, 64 if ctx.quick else 300, ctx.quick, neg=True)
+    cases = kernel_cases(ctx.rng, 64 if ctx.quick else 300, ctx.quick, neg=True, revisit=True)
     part = family.run_family(ctx, "C06", cases, "harness.exec_kernel", "KernelTrace.tla", "KernelTrace.cfg",
                              op_of=lambda c, lg, st: c["shape"], where_of=lambda c, lg, st: c["style"] + (":tiled" if c.get("tile") else ""),
                              beh_of=lambda c: {k: v for k, v in c.items() if k != "tid"},
